@@ -390,13 +390,15 @@ pub fn case(tape: &[u32]) -> CaseOutcome {
             None => CaseOutcome::Discard("no such static case"),
         };
     }
-    let mut t = Tape::new(tape);
+    let (aux, main) = split_tape(tape);
+    let mut t = Tape::new(&aux);
+    let mut gt = Tape::new(&main);
     let mut cfg = GenCfg::fragment();
     cfg.force_globals = true;
     cfg.shorthands = t.chance(1, 2);
-    let program = make_program(&mut t, &cfg);
-    let dsl = &program.printed.text;
     let source = pysrc::gen_source(&mut t);
+    let program = make_program(&mut gt, &cfg);
+    let dsl = &program.printed.text;
     let file = match load_valid("C16", dsl) {
         Ok(f) => f,
         Err(o) => return o,
@@ -454,7 +456,7 @@ pub fn case(tape: &[u32]) -> CaseOutcome {
 }
 
 pub fn spec(tier: &str) -> Spec {
-    let mut s = Spec::new("C16", tier, 3_000, 40_000, 600);
+    let mut s = Spec::new("C16", tier, 3_000, 40_000, 1000);
     s.rule = "(1) exhaustive product: every declaration (quantifier in {none,?,*,+} x default present/absent) x every supply pattern (absent; null, bool, int, string, list, empty list, set, syntax node, graph node; through the outer set of a nested Variables; in both sets, inner wins) x {strict, lazy}, for 1 global and for all pairs of 2 globals; each run checks Ok/Err (missing-global / expected-list), the value seen at top level, inside if/for/comprehension and in a second stanza, and that the caller's inner and outer Variables are unchanged. (2) every static rule (let / var / node / for / comprehension variable / set / nested let / shorthand variable named like a global, duplicate declaration, declaration after the stanza) x every declaration. (3) generated programs with >=1 declared global read at every block depth, one supplied global dropped in a quarter of them, both modes, compared with the reference interpreter. Non-trivial: product cases where a default is applied next to a supplied value or a global is list-typed; all static cases; generated cases with >=2 globals and >=3 executed statements. Parts (1) and (2) are enumerated completely on every run.".into();
     s.assumptions = vec![
         "a `*`/`+` global that is absent and has a default evaluates to the default string (the list requirement applies to supplied values)".into(),
